@@ -279,6 +279,7 @@ pub fn hist_gen_cfg(prop : &str, thorough : bool, rng : &mut Rng) -> GenCfg
     g.shared_pool = rng.chance(1, 3);
     g.max_rules = rng.range(1, g.max_rules);
     if thorough && rng.chance(1, 20) { g.max_rules = rng.range(15, 28); }
+    g.soak = rng.chance(1, 250);
     match prop
     {
         "C02" => { g.failing = rng.chance(1, 6); g.cleans = *rng.pick(&[8u64, 15, 25]); },
